@@ -80,7 +80,10 @@ func (cp *c10Copy) paths(c *Ctx, rule, role string) ([]wpath, *watFunc) {
 }
 
 func runC10(c *Ctx) {
-	c.Explain = "Decides structural clauses of the allocator from symbolic path summaries of its WAT source (watflow.go: every control-flow path followed with a symbolic operand stack, leaf accessors expanded, loops followed once with their variables unknown at the head; nothing is executed). The same rules run on both copies, the one the Go tests drive (internal/waroot/malloc/malloc.wat) and the one linked into every program (waroot/src/runtime/heap_malloc.wat.ws). " +
+	if watDumpPaths(c) {
+		return
+	}
+	c.Explain ="Decides structural clauses of the allocator from symbolic path summaries of its WAT source (watflow.go: every control-flow path followed with a symbolic operand stack, leaf accessors expanded, loops followed once with their variables unknown at the head; nothing is executed). The same rules run on both copies, the one the Go tests drive (internal/waroot/malloc/malloc.wat) and the one linked into every program (waroot/src/runtime/heap_malloc.wat.ws). " +
 		"Clauses: grow-covers-block (bump amount = stored payload size + 8; the pages requested are ceil(X/64K) with X at least the deficit heap_ptr+block-heap_top; heap_top advances by pages·64K; the guard compares the same block size); " +
 		"rover-follows-unlink (every path of the ring scan that returns a block sets the rover to the predecessor); split-conserves / coalesce-conserves (header and payload bytes of the blocks before and after a split or a merge add up, the remainder starts where the allocated part ends); " +
 		"class-ladder (each size class is a positive multiple of 8, at least every request routed to it, small classes and their list heads are routed back to themselves when freed, a class of 0 can never be requested from the ring whose head has size 0); " +
